@@ -64,7 +64,8 @@ def gen_scenario(rng, nops):
         elif r < 0.87: ops.append('(count %s)' % E.H(rng.choice(AUTO + ['id1', 'x'])))
         elif r < 0.92: ops.append('(ids)')
         elif r < 0.96: ops.append('(dups)')
-        elif r < 0.98: ops.append('(setmodel)')
+        elif r < 0.975: ops.append('(printauto)')
+        elif r < 0.985: ops.append('(setmodel)')
         else: ops.append('(switch)')
     if rng.random() < 0.25:
         # the annotator is handed a second model object with the same identifiers (a re-parse / clone), then used on it
@@ -81,6 +82,8 @@ def gen_scenario(rng, nops):
         if (o.startswith('(assignall') or o.startswith('(assignids')) and rng.random() < 0.6:
             out += ['(item %s)' % E.H('%06x' % (0xb4da55 + k)) for k in range(rng.choice([6, 12, 20]))]
     ops = out
+    if rng.random() < 0.5:
+        ops.insert(rng.randrange(len(ops) + 1), '(printauto)')
     return '(annot %s (equivs %s) (ops %s))' % (E.sexp_model(m), ' '.join(equivs), ' '.join(ops))
 
 
@@ -132,6 +135,15 @@ def oracle(shape_line, ops, results):
             if new[i] == '#' or new[i] in cur or new.count(new[i]) != 1: bad.append('%s gave slot %d the identifier %s which is not fresh' % (op, i, new[i]))
             for j, (o, n) in enumerate(zip(cur, new)):
                 if j != i and o != n: bad.append('%s changed slot %d' % (op, j))
+        if head[0] == 'printauto':
+            f = res[2:].split(')')[0].split()       # p unchanged missing k ids…
+            gen = f[4:]
+            if f[1] != '1' or new != cur: bad.append('printModel(model, true) modified the model')
+            if f[2] != '0': bad.append('printModel(model, true) left %s element(s) without an identifier or dropped an existing one' % f[2])
+            if len(gen) != int(f[3]): bad.append('printModel(model, true) wrote %d new identifiers for %s elements that lacked one' % (len(gen), f[3]))
+            present = set(x for x, k in zip(cur, kinds) if x != '#')
+            for g in gen:
+                if gen.count(g) != 1 or g in present: bad.append('printModel(model, true) wrote the identifier %s which is carried by another element' % g)
         if head[0] == 'item' and has_model:
             want = head[1]
             cnt = new.count(want)
@@ -159,7 +171,7 @@ def run(chk, replay=None):
         'all pairs of one connection carry the same connection id (what the parser and setEquivalenceConnectionId produce); import sources are not shared between entities',
         'each generated variable takes part in at most one equivalence: for longer equivalence chains Variable::equivalenceConnectionId walks indirectly equivalent variables in pointer order, so its value is not a function of the model (address dependence, C12)',
         'std::hash collisions of the model hash are not modelled (the snapshot is the id list itself); item(id, index) among duplicates and MathML ids are not modelled',
-        'Printer::printModel(model, true) is not modelled yet']
+        'Printer::printModel(model, true): the model gives the identifiers handed out (freshIds) for the number of elements that lack one, which the harness counts in the plain print; the order in which the printer reaches the elements is not modelled (the generated identifiers are compared as a sorted list), identifiers inside MathML are ignored']
     chk.cov['trusted_base'] += ['harness/hx_annot.cpp + hx_entity.h (slot/visit computation), lean/Cellml/Engine/Annot.lean', 'python scenario generator and oracle in checks/C13.py']
     if not ok:
         chk.violation('Lean obligations of C13 no longer check: ' + out[-1500:], {'kind': 'proof', 'theorem_or_build_log': out[-3000:]}, False)
@@ -185,6 +197,13 @@ def run(chk, replay=None):
         ops = split_top(l[1:-1])[-1]
         opsl.append(split_top(ops[1:-1]))
         if len(parts) == 2 and parts[0].startswith('(shape'):
+            rs = split_top(parts[1][3:-1])
+            ol = split_top(ops[5:-1])
+            for k, o in enumerate(ol):
+                if o == '(printauto)':
+                    mk = re.match(r'\(\(p \d+ \d+ (\d+)', rs[k]) if k < len(rs) else None
+                    ol[k] = '(printauto %s)' % (mk.group(1) if mk else '0')
+            ops = '(ops %s)' % ' '.join(ol)
             mlines.append('(annot %s %s)' % (parts[0][7:-1], ops))
         else:
             mlines.append('(annot)')
